@@ -6,6 +6,16 @@ ALL = ["C%02d" % i for i in range(1, 21)]
 
 # id -> (level category, technique, level text, level note, design ref, engine)
 CHECKS = {
+    "C04": ("exploration",
+            "bounded exhaustive input enumeration vs WHATWG scheme extractor + compile-time type gate",
+            "Every token sequence up to 4 (quick) / 5 (thorough) over a 30-token URL-adversarial alphabet (scheme names in both cases, ':', '/', '\\', '?', '#', %3a, character references, TAB/LF/CR/space/NUL/0x01, U+017F, U+212A), every character string up to 5/6 over 12 characters and every one-token edit of 19 known XSS vectors goes through templ.URL; strings up to 3/4 tokens also through the compiled href/action sinks, re-read with the reference HTML tokenizer. A type gate compiles templates with plain-string href/action (any attribute-name case) and requires the build to fail.",
+            "Trusts the WHATWG scheme-state reference (40 lines) and the reference HTML tokenizer (cross-checked against x/net/html on 579k inputs). No random long strings.",
+            "4.4", "enum"),
+    "C05": ("exploration",
+            "bounded exhaustive (property,value) enumeration vs CSS Syntax 3 reference parser with sentinel rule",
+            "10 property classes x every value up to 4/5 tokens over a 25-token CSS-adversarial alphabet, url()/quoted-string shapes with every inner string up to 3/4 tokens, every property name up to 3/4 tokens, through safehtml.SanitizeCSS, templ.SanitizeCSS, SanitizeStyleAttributeValues (map and KeyValue) and the compiled css-component and style-attribute sinks. The emitted declaration is parsed inside '.a{...}.sentinel{color:red}' by a CSS Syntax Level 3 tokenizer/parser: one item, sentinel intact, no comment/bad-string/bad-url/at-keyword/function other than url(), URL schemes allow-listed, style element and attribute not ended.",
+            "Trusts the CSS Syntax 3 reference tokenizer/parser in ref/csstok and ref/htmltok. Plain-string and SafeCSS style values are author-trusted (not listed by the statement).",
+            "4.5", "enum"),
     "C17": ("model_checking",
             "explicit-state BFS over real Document objects vs byte-splice reference",
             "Every document up to 4 (quick) / 5 (thorough) bytes over {a,b,\\n}, every ordered range including positions beyond the line and document end, six replacement texts and the nil-range full replace, chained breadth-first to depth 2/3 over the resulting documents; each transition runs the real Document.Apply on a fresh instance and is compared with a byte-splice reference. Exhaustive within the bound, so every clamping/branching combination of the edit classifier is reached.",
